@@ -48,6 +48,17 @@ mixed process_input(mixed s) {
 }
 #endif
 
+// exec(): this connection moves to a fresh user object, which takes over the tag
+void after_exec(string t, string from) {
+  enable_commands();
+  add_action("cmd_any", "", 1);
+  add_action("cmd_do", "do");
+  add_action("cmd_x", "x");
+  add_action("cmd_nf", "nf");
+  if (t) { set_tag(t); rec("NAME " + t + " " + file_name(this_object())); }
+  rec("EXECD " + me() + " " + from);
+}
+
 int cmd_do(string arg) {
   rec("DO " + me() + " " + arg);
   run(arg);
